@@ -411,11 +411,14 @@ func (bs *BinarySpray) ReportFailure(bp BundleDescriptor, sender cla.Convergence
 		}).Warn("No metadata")
 		return
 	}
-	binarySprayBlock.SetCopies(metadata.remainingCopies + binarySprayBlock.RemainingCopies())
-
 	for i := 0; i < len(metadata.sent); i++ {
 		if metadata.sent[i] == sender.GetPeerEndpointID() {
 			metadata.sent = append(metadata.sent[:i], metadata.sent[i+1:]...)
+
+			// Take the copies announced for the failed transmission back into this node's own counter.
+			// A failed direct delivery to the destination node was not selected here and took no copies.
+			binarySprayBlock.SetCopies(metadata.remainingCopies + binarySprayBlock.RemainingCopies())
+			metadata.remainingCopies = binarySprayBlock.RemainingCopies()
 			break
 		}
 	}
